@@ -247,3 +247,138 @@ C.contract(
              ('single-unless-it-costs-more-escapes', 'implies(result == "\'", count_(s, "\'") <= count_(s, \'"\'))'),
              ('double-only-when-strictly-cheaper', 'implies(result == \'"\', count_(s, \'"\') < count_(s, "\'"))')],
     serves=['C02'])
+
+
+# ---- pretty_str.evaluator: the width-dependent choice between one literal and several (C02, C08, C12) --------------------------
+# The nested function that the layout calls with the current column.  What is stated: (1) a string that fits is ONE literal, (2) the
+# splitter is only ever called with max_len >= 10 - its precondition max_len > 0, under which it is proved to terminate and to yield
+# pieces that concatenate to s - and the pieces are what gets printed, (3) a string that could not be split is one literal, (4) an
+# instance of a subclass is wrapped on every path.
+U.uninterpreted('SDoc')
+U.uninterpreted('CtxO')
+U.uninterpreted('ClsO')
+SD = U.sort('SDoc')
+single_f = z3.Function('single_line_doc', z3.StringSort(), z3.IntSort(), SD)                       # pretty_single_line_str(s, indent)
+pieces_f = z3.Function('pieces_doc', U.sort('Out'), z3.IntSort(), U.sort('Quote'), SD)            # intersperse(HARDLINE, literal of each piece)
+wrapc_f = z3.Function('wrap_in_constructor', U.sort('ClsO'), SD, SD)                             # build_fncall(ctx, constructor, argdocs=[doc])
+glue_f = z3.Function('multiline_glue', z3.StringSort(), z3.IntSort(), SD, SD)                      # always_break / nest / parens around the pieces
+quote_f = z3.Function('quote_of', z3.StringSort(), U.sort('Quote'))
+U.coerce_hooks = dict(getattr(U, 'coerce_hooks', {}))
+U.coerce_hooks[('Str', 'Quote')] = lambda I, v: quote_f(v)
+for _n in ('HARDLINE', 'LPAREN', 'RPAREN', 'NIL'):
+    U.consts[_n] = z3.Const('SDOC_' + _n, SD)
+
+
+def _h_single(I, args, kwargs, node):
+    kw = dict(kwargs)
+    s_ = I.coerce(args[0], 'Str')
+    ind = I.coerce(args[1] if len(args) > 1 else kw.pop('indent'), 'Int')
+    if kw and set(kw) != {'use_quote'}:
+        raise OutsideSubset('pretty_single_line_str call shape')
+    return single_f(s_, ind)
+
+
+shows_f = z3.Function('pieces_shown_by', SD, U.sort('Out'))          # the literals a document prints, in order
+has_pieces_f = z3.Function('prints_pieces', SD, z3.BoolSort())
+is_wrap_f = z3.Function('is_wrapped_in', SD, U.sort('ClsO'), z3.BoolSort())
+
+
+def _track(I):
+    return I.__dict__.setdefault('_pieces_docs', {})
+
+
+def _h_intersperse(I, args, kwargs, node):
+    sep, g = args
+    if not (isinstance(g, GenExp) and g.kind == 'genexp' and not g.ifs and is_z3(g.iter) and I.sort_of(g.iter) == 'Out'
+            and isinstance(g.elt, ast.Call) and isinstance(g.elt.func, ast.Name) and g.elt.func.id == 'pretty_single_line_str'
+            and isinstance(g.target, ast.Name) and g.elt.args and isinstance(g.elt.args[0], ast.Name) and g.elt.args[0].id == g.target.id):
+        raise OutsideSubset('intersperse shape')
+    kws = {k.arg: k.value for k in g.elt.keywords}
+    saved = I.env
+    I.env = dict(g.env)
+    try:
+        ind = I.coerce(I.ev(kws['indent']), 'Int')
+        q = I.coerce(I.ev(kws['use_quote']), 'Quote')
+    finally:
+        I.env = saved
+    d = pieces_f(g.iter, ind, q)
+    I.assume(shows_f(d) == g.iter)          # definitional: one literal per piece, in order, separated by hard lines
+    I.assume(has_pieces_f(d))
+    _track(I)[d.get_id()] = d
+    return d
+
+
+def _flat(xs):
+    for x in xs:
+        if isinstance(x, tuple) and len(x) == 2 and x[0] == 'star':
+            yield x[1]
+        elif isinstance(x, (list, tuple)):
+            for y in _flat(x):
+                yield y
+        else:
+            yield x
+
+
+def _glue(name):
+    def h(I, args, kwargs, node):
+        pcs = [x for x in _flat(list(args)) if is_z3(x) and x.get_id() in _track(I)]
+        if len(pcs) != 1:
+            raise OutsideSubset('%s: expected exactly one child that prints the pieces of the string' % name)
+        d = glue_f(z3.StringVal(name), I.fresh('Int', 'glue'), pcs[0])
+        I.assume(shows_f(d) == shows_f(pcs[0]))          # assumed of concat / nest / always_break: they add no literal and drop none
+        I.assume(has_pieces_f(d) == has_pieces_f(pcs[0]))
+        _track(I)[d.get_id()] = d
+        return d
+    return h
+
+
+def _h_wrap(I, args, kwargs, node):
+    docs = kwargs.get('argdocs')
+    if not (isinstance(docs, list) and len(docs) == 1) or set(kwargs) != {'argdocs'} or len(args) != 2:
+        raise OutsideSubset('build_fncall call shape in pretty_str')
+    inner_ = I.coerce(docs[0], 'SDoc')
+    cls = I.coerce(args[1], 'ClsO')
+    r = wrapc_f(cls, inner_)
+    I.assume(is_wrap_f(r, cls))
+    I.assume(shows_f(r) == shows_f(inner_))
+    I.assume(has_pieces_f(r) == has_pieces_f(inner_))
+    if inner_.get_id() in _track(I):
+        _track(I)[r.get_id()] = r
+    return r
+
+
+_interp.BUILTINS['single_'] = lambda I, a, k, n: single_f(I.coerce(a[0], 'Str'), I.coerce(a[1], 'Int'))
+_interp.BUILTINS['wrap_'] = lambda I, a, k, n: wrapc_f(I.coerce(a[0], 'ClsO'), I.coerce(a[1], 'SDoc'))
+_interp.BUILTINS['shows_pieces_'] = lambda I, a, k, n: has_pieces_f(I.coerce(a[0], 'SDoc'))
+_interp.BUILTINS['pieces_of_'] = lambda I, a, k, n: shows_f(I.coerce(a[0], 'SDoc'))
+_interp.BUILTINS['is_wrap_'] = lambda I, a, k, n: is_wrap_f(I.coerce(a[0], 'SDoc'), I.coerce(a[1], 'ClsO'))
+
+
+C.extern = getattr(C, 'extern', {})
+C.extern.setdefault(PP, {}).update({
+    'pretty_single_line_str': _interp.FuncVal('hook', 'pretty_single_line_str', _h_single),
+    'intersperse': _interp.FuncVal('hook', 'intersperse', _h_intersperse),
+    'concat': _interp.FuncVal('hook', 'concat', _glue('concat')),
+    'nest': _interp.FuncVal('hook', 'nest', _glue('nest')),
+    'always_break': _interp.FuncVal('hook', 'always_break', _glue('always_break')),
+    'build_fncall': _interp.FuncVal('hook', 'build_fncall', _h_wrap),
+})
+
+
+_ev = C.contract(
+    PP, 'pretty_str.evaluator', params={'indent': 'Int', 'column': 'Int', 'page_width': 'Int', 'ribbon_width': 'Int'}, returns='SDoc',
+    requires=[('a-str-or-bytes', 'isinstance(s, str) or isinstance(s, bytes)'),
+              ('one-of-the-four-strategies', 'multiline_strategy == "MULTILINE_STRATEGY_PLAIN" or multiline_strategy == "MULTILINE_STRATEGY_HANG" or '
+                                             'multiline_strategy == "MULTILINE_STRATEGY_PARENS" or multiline_strategy == "MULTILINE_STRATEGY_INDENTED"')],
+    ensures=[('fits-is-one-literal', 'implies(len(s) + 2 <= min(page_width - column, indent + ribbon_width - column), '
+                                     'result == (single_(s, prettyprinter_indent) if is_native_type else wrap_(constructor, single_(s, prettyprinter_indent))))'),
+             ('otherwise-one-literal-or-pieces-that-concatenate-to-s',
+              'result == single_(s, prettyprinter_indent) or result == wrap_(constructor, single_(s, prettyprinter_indent)) or '
+              '(shows_pieces_(result) and joino(pieces_of_(result)) == s and nonempty_out(pieces_of_(result)) and len(pieces_of_(result)) >= 1)'),
+             ('subclass-wrapped-or-plain-strategy', 'implies(not is_native_type, is_wrap_(result, constructor))')],
+    serves=['C02', 'C08', 'C12'],
+    note='closure variables s, ctx, constructor, is_native_type, prettyprinter_indent, multiline_strategy, split_pattern are inputs of the unit; '
+         'the call of str_to_lines is checked against ITS precondition max_len > 0 (the floor of 10 columns) and its proved postcondition '
+         '(pieces concatenate to s, none empty) is what the third clause rests on')
+_ev.globals_ = {'s': 'Str', 'ctx': 'CtxO', 'constructor': 'ClsO', 'is_native_type': 'Bool', 'prettyprinter_indent': 'Int',
+                'multiline_strategy': 'Str', 'split_pattern': 'OptPat'}
